@@ -68,7 +68,32 @@ def attr_sources(expr):
     return None
 
 
-def selection_loops(fn):
+def _inline_selector(P, cls, call):
+    """`self._helper(<list>, <id>)` / `Class._helper(...)` whose body is `return <comprehension over a parameter>`:
+    the comprehension with the parameters replaced by the argument expressions, else None"""
+    f = call.func
+    if P is None or cls is None or not isinstance(f, ast.Attribute) or not isinstance(f.value, ast.Name) or f.value.id not in ('self', cls.name):
+        return None
+    hit = P.lookup(cls, f.attr)
+    if not hit or hit[1] != 'method':
+        return None
+    fn = hit[2]
+    params = [a.arg for a in fn.args.args]
+    if f.attr not in hit[0].static and params[:1] == ['self']:
+        params = params[1:]
+    body = [s for s in fn.body if not (isinstance(s, ast.Expr) and isinstance(s.value, ast.Constant))]
+    if len(body) != 1 or not isinstance(body[0], ast.Return) or not isinstance(body[0].value, (ast.ListComp, ast.GeneratorExp)) or call.keywords or len(call.args) != len(params):
+        return None
+
+    class Sub(ast.NodeTransformer):
+        def visit_Name(self, n):
+            if n.id in params and isinstance(n.ctx, ast.Load):
+                return copy.deepcopy(call.args[params.index(n.id)])
+            return n
+    return Sub().visit(copy.deepcopy(body[0].value))
+
+
+def selection_loops(fn, P=None, cls=None):
     """effect summaries of the `for` loops of fn:
     dict(loop=For, sources=set|None, preds=[str], actions=[(stmt, text)], var='E_')"""
     defs = single_defs(fn)
@@ -81,6 +106,10 @@ def selection_loops(fn):
         preds = []
         if isinstance(it, ast.Name) and it.id in defs:
             it = defs[it.id]
+        if isinstance(it, ast.Call):
+            sel = _inline_selector(P, cls, it)
+            if sel is not None:
+                it = sel
         sources = None
         if isinstance(it, (ast.ListComp, ast.GeneratorExp)) and len(it.generators) == 1:
             gen = it.generators[0]
@@ -104,6 +133,8 @@ def selection_loops(fn):
                 elif isinstance(s, ast.If) and len(s.body) == 1 and isinstance(s.body[0], ast.Continue):
                     preds.append('not (' + rn(s.test, {v: 'E_'}) + ')')
                     flat(s.orelse)
+                elif isinstance(s, ast.Assign) and all(isinstance(t, ast.Name) for t in s.targets) and not any(isinstance(x, ast.Call) for x in ast.walk(s.value)):
+                    pass        # a pure local definition is not an effect on the event (its value is substituted where it is used)
                 else:
                     actions.append((s, rn(s, {v: 'E_'})))
         flat(loop.body)
@@ -160,7 +191,7 @@ def check(ctx):
         if not params:
             raise AnalysisError(f'Environment.{name} takes no asset id')
         param = params[0]
-        loops = selection_loops(fn)
+        loops = selection_loops(fn, P, Env)
         acting = [l for l in loops if l['actions']]
         o.count()
         if len(acting) != 1:
@@ -210,7 +241,7 @@ def check(ctx):
                 o1.witness(what)
         o1.count()
         stamps = [(s, t) for s, t in l['actions'] if isinstance(s, ast.Assign) and t.startswith('E_.paused_at =')]
-        if len(stamps) != 1 or not N.norm(stamps[0][0].value).is_({'NOW': 1}):
+        if len(stamps) != 1 or not N.norm(stamps[0][0].value, single_defs(fn)).is_({'NOW': 1}):
             o1.fail(P, 'Environment.pause_matching_events', 'E_.paused_at = self.now', 'each paused event must be stamped with the current time',
                     file=Env.mod.path, line=l['loop'].lineno)
         else:
@@ -304,7 +335,7 @@ def check(ctx):
                 o4.witness((fn_name, role[1]))
         elif role[0] in ('augstore', 'del', 'subscript-store', 'subscript-del', 'return', 'assign-alias', 'other', 'attr'):
             bad = f'the paused list is changed or escapes ({role[0]})'
-        elif role[0] == 'arg' and role[1] not in c01.READ_FUNCS:
+        elif role[0] == 'arg' and role[1] not in c01.READ_FUNCS and not inv.readonly_param(P, s.cls, role[1], role[2]):
             bad = f'the paused list escapes to {role[1]}()'
         if bad:
             o4.fail(P, s.ctx, s.stmt, bad, file=s.mod.path, line=s.line)
